@@ -165,3 +165,51 @@ def tt_matrix_to_tensor(S, cores):
     subs = [rk[k] + ins[k] + outs[k] + rk[k + 1] for k in range(d)]
     # boundary ranks are literal 1 -> their letters are summed (size-1 sum)
     return S.einsum(",".join(subs) + "->" + ins + outs, *cores)
+
+
+# ------------------------------------------------------------------------------------------------ C03
+def cp_to_tensor(S, weights, factors, mask=None):
+    """X[i_0..i_{N-1}] = sum_r w_r prod_k U_k[i_k, r]   (entrywise * mask)"""
+    N = len(factors)
+    lx = letters(N)
+    subs = [lx[k] + "R" for k in range(N)]
+    args = list(factors)
+    if weights is not None:
+        subs.append("R")
+        args.append(weights)
+    if mask is not None:
+        subs.append(lx)
+        args.append(mask)
+    return S.einsum(",".join(subs) + "->" + lx, *args)
+
+
+def tucker_to_tensor(S, core, factors, skip=None, transpose=False, modes=None):
+    """X = G x_0 U_0 x_1 ... (U_k^H when transpose)"""
+    return multi_mode_dot(S, core, factors, modes, skip, transpose)
+
+
+def tt_to_tensor(S, cores):
+    """X[i_1..i_d] = G_1[:, i_1, :] G_2[:, i_2, :] ... G_d[:, i_d, :]   (boundary ranks 1)"""
+    d = len(cores)
+    ix = letters(d)
+    rk = letters(d + 1, d)
+    return S.einsum(",".join(rk[k] + ix[k] + rk[k + 1] for k in range(d)) + "->" + ix, *cores)
+
+
+def tr_to_tensor(S, cores):
+    """X[i_1..i_d] = trace( G_1[:, i_1, :] ... G_d[:, i_d, :] )   (r_0 == r_d closes the ring)"""
+    d = len(cores)
+    ix = letters(d)
+    rk = letters(d, d)
+    return S.einsum(",".join(rk[k] + ix[k] + rk[(k + 1) % d] for k in range(d)) + "->" + ix, *cores)
+
+
+def parafac2_slice(S, weights, A, B, C, P_i, i):
+    """X_i = P_i B diag(a_i * w) C^T"""
+    a = S.take(A, 0, i)
+    subs = ["js", "sr", "r", "kr"]
+    args = [P_i, B, a, C]
+    if weights is not None:
+        subs.append("r")
+        args.append(weights)
+    return S.einsum(",".join(subs) + "->jk", *args)
